@@ -1,13 +1,34 @@
 /- Property C15: the property theorems (and nothing else). -/
-import Frugal.Decode
+import Frugal.Proofs.DepthProps
+import Frugal.Proofs.DecodeRefine
 import Frugal.Props.Instances
 namespace Frugal.C15
 open Frugal
 theorem recursion_discipline : Generated.facts.recursionDiscipline = true := Instances.facts_recursionDiscipline
 theorem depth_constants : Generated.params.validDepth = true := Instances.valid_depth
-/-- an exhausted budget is a depth error at both entry points -/
+/-- an exhausted budget is a depth error at both entry points; every recursive call is made with
+    the budget decreased by one (the definitions recurse structurally on it), so the recursion — and
+    with it the Go stack — is bounded by the budget whatever the input length -/
 theorem zero_budget_struct (P : Params) (S : Schema) (t sid : Nat) (b : Bytes) (d : Val) :
     decodeStruct P S t 0 sid b d = .err .depth := by simp [decodeStruct]
 theorem zero_budget_value (P : Params) (S : Schema) (t : Nat) (ty : Ty) (b : Bytes) (d : Val) :
     decodeType P S t 0 ty b d = .err .depth := by simp [decodeType]
+
+/-- a well-formed message nested no deeper than 48 levels (structs, lists, sets, maps in any
+    mixture, known and unknown positions) is never rejected with a depth error -/
+theorem shallow_always_accepted (S : Schema) (hS : S.ok = true) (sid : Nat) (fs : List (Nat × TVal))
+    (trailing : Bytes) (dest : Val) (hw : wfFields fs = true) (hd : depth (.strct fs) ≤ 48) :
+    (decodeM Generated.params S sid (ser (.strct fs) ++ trailing) dest).isDepthErr = false := by
+  rw [decodeM_refines Instances.params_valid S hS sid fs trailing dest hw, mapv_isDepthErr]
+  have hv := Instances.valid_depth
+  simp only [Params.validDepth, Bool.and_eq_true, decide_eq_true_eq] at hv
+  exact shallow_accepted _ S sid fs trailing.length dest hd hv.1 (skipDepth_eq Instances.params_valid)
+
+/-- skipped (unknown) data deeper than the skipper's own limit is a depth error, not a crash -/
+theorem deep_unknown_is_depth_error (v : TVal) (r : Bytes) (hw : wf v = true)
+    (hdeep : skipNeed v > Generated.params.skipDepth) :
+    skipType Generated.params Generated.params.skipDepth v.tag (ser v ++ r) = .err .depth := by
+  rw [skipType_ser Instances.params_valid v _ r hw]
+  have : ¬ skipNeed v ≤ Generated.params.skipDepth := by omega
+  simp [this]
 end Frugal.C15
